@@ -126,10 +126,11 @@ Inductive op :=
 | Untag (r : N)
 | Delete (d : N)
 | SaveIndex
+| TagDig (d : N)            (* Tag(desc, <the digest string of desc>): tag() enters the digest reference only *)
 | Forget (live : list N).   (* the in-memory half of GC: digest references of content outside
                                [live] are dropped (tagged content always stays), then saveIndex *)
 
-Inductive res := ROk | RExists | RNotFound | RMismatch | RInvalid.
+Inductive res := ROk | RExists | RNotFound | RMismatch | RInvalid | RInvalidRef.
 
 Definition memN (x : N) (l : list N) : bool := existsb (N.eqb x) l.
 
@@ -191,6 +192,8 @@ Definition op_mem (s : st) (o : op) : list (N * N) * list N :=
   | Delete d =>
       (filter (fun e => negb (snd e =? d)) (stags s), filter (fun x => negb (x =? d)) (sdigs s))
   | SaveIndex => (stags s, sdigs s)
+  | TagDig d =>
+      if exists_file (sfs s) (FBlob d) then (stags s, dig_add d (sdigs s)) else (stags s, sdigs s)
   | Forget live =>
       (stags s, filter (fun x => memN x live || existsb (fun e => snd e =? x) (stags s)) (sdigs s))
   end.
@@ -220,6 +223,7 @@ Definition op_steps (s : st) (o : op) : list mstep :=
       let un := if exists_file (sfs s) (FBlob d) then [Unlink (FBlob d)] else [] in
       if unlink_first then un ++ ix else ix ++ un
   | SaveIndex => index_steps c tags' digs'
+  | TagDig d => if exists_file (sfs s) (FBlob d) then auto_idx c tags' digs' else []
   | Forget _ => auto_idx c tags' digs'
   end.
 
@@ -232,6 +236,7 @@ Definition op_res (s : st) (o : op) : res :=
   | Untag r => match tag_get r (stags s) with Some _ => ROk | None => RNotFound end
   | Delete d => if exists_file (sfs s) (FBlob d) then ROk else RNotFound
   | SaveIndex => ROk
+  | TagDig d => if exists_file (sfs s) (FBlob d) then ROk else RNotFound
   | Forget _ => ROk
   end.
 
@@ -351,6 +356,8 @@ Inductive api :=
 | APush (d : N) (c : list N)
 | ATag (d r : N)
 | AUntag (r : N)
+| ATagDigest (d : N)                   (* Tag with the digest string as reference *)
+| AUntagDigest (d : N)                 (* Untag of a digest string: refused *)
 | ADelete (d : N) (cascade : list N)   (* AutoGC: the nodes deleted after d, in queue order *)
 | ASaveIndex
 | AGC (live sweep : list N)            (* live set of the mark phase; blobs swept, in directory order *)
@@ -368,6 +375,9 @@ Definition expand (s : st) (a : api) : list op :=
   | ATag d r =>
       if exists_file (sfs s) (FBlob d) && mt d && negb (dec d) then [] else [Tag d r]
   | AUntag r => [Untag r]
+  | ATagDigest d =>
+      if exists_file (sfs s) (FBlob d) && mt d && negb (dec d) then [] else [TagDig d]
+  | AUntagDigest _ => []
   | ADelete d cascade => Delete d :: map Delete cascade
   | ASaveIndex => [SaveIndex]
   | AGC live sweep => Forget live :: map Delete sweep
@@ -384,6 +394,9 @@ Definition api_res (s : st) (a : api) : res :=
   | ATag d r =>
       if exists_file (sfs s) (FBlob d) then (if mt d && negb (dec d) then RInvalid else ROk) else RNotFound
   | AUntag r => op_res s (Untag r)
+  | ATagDigest d =>
+      if exists_file (sfs s) (FBlob d) then (if mt d && negb (dec d) then RInvalid else ROk) else RNotFound
+  | AUntagDigest d => if memN d (sdigs s) then RInvalidRef else RNotFound
   | ADelete d _ => op_res s (Delete d)
   | ASaveIndex | AGC _ _ | AReopen => ROk
   end.
